@@ -34,6 +34,7 @@ def repo_clean():
 
 
 def verify(d):
+    d = os.path.abspath(d)
     meta = json.load(open(os.path.join(d, "meta.json")))
     wt = "/tmp/seedverify-%d" % os.getpid()
     sh(["git", "-C", REPO, "worktree", "add", "-q", "--detach", wt, "HEAD"])
@@ -43,12 +44,14 @@ def verify(d):
         demo = os.path.join(demo_dir, "zz_seeded_demo_test.go")
         shutil.copyfile(os.path.join(d, "demo_test.go"), demo)
         pkg = "./" + (meta.get("demo_dir", ".") or ".").strip("./") if (meta.get("demo_dir", ".") or ".").strip("./") else "."
-        rc0, out0 = sh(["go", "test", "-vet=off", "-count=1", pkg], cwd=wt)
+        names = re.findall(r"^func (Test\w+)\(", open(demo).read(), re.M)
+        only = ["-run", "^(%s)$" % "|".join(names)]
+        rc0, out0 = sh(["go", "test", "-vet=off", "-count=1"] + only + [pkg], cwd=wt)
         res["demo_passes_without_patch"] = rc0 == 0
         rc, out = sh(["git", "apply", os.path.join(d, "patch.diff")], cwd=wt)
         res["patch_applies"] = rc == 0
         if rc == 0:
-            rc1, out1 = sh(["go", "test", "-vet=off", "-count=1", pkg], cwd=wt)
+            rc1, out1 = sh(["go", "test", "-vet=off", "-count=1"] + only + [pkg], cwd=wt)
             res["demo_fails_with_patch"] = rc1 != 0 and "FAIL" in out1 and "[build failed]" not in out1
             os.remove(demo)
             rc2, out2 = sh(["go", "test", "-vet=off", "-count=1", ".", "./pkg/binding", "./pkg/handlers", "./pkg/render"], cwd=wt)
